@@ -56,6 +56,11 @@ def strip_attrs(flat, names):
             if toks[i + 2] in names and (toks[i + 3] in ('(', ']', '=')):
                 i = j + 1
                 continue
+            # `derive_ex` written with the crate name in front (read by the attribute macro like the bare spelling)
+            if 'derive_ex' in names and (toks[i + 2:i + 7] == ['derive_ex', ':', ':', 'derive_ex', '('] or
+                                         toks[i + 2:i + 9] == [':', ':', 'derive_ex', ':', ':', 'derive_ex', '(']):
+                i = j + 1
+                continue
             out.extend(toks[i:j + 1])
             i = j + 1
             continue
